@@ -146,7 +146,7 @@ def _worker(args):
             agg['skipped'] += len(indices) - n
             break
         seed = run_seed(verif_seed, cid, i)
-        faulthandler.dump_traceback_later(600, exit=True)
+        faulthandler.dump_traceback_later(1800, exit=True)
         try:
             case = mod.gen(seed, tier)
             case['seed'] = seed
